@@ -92,6 +92,112 @@ Build103(f) ==
   \o Rep("71F=USD:5", f.f71f)
   \o (IF f.g71 = "same" THEN <<"71G=USD:5">> ELSE IF f.g71 = "diff" THEN <<"71G=EUR:5">> ELSE <<>>)
 
+
+(* ================================ MT101 ================================== *)
+(* two-transaction abstraction; tx1 carries the per-transaction rule facts   *)
+Valid101   == {"CHQB", "CMSW", "CMTO", "CMZB", "CORT", "EQUI", "INTC", "NETS", "OTHR", "PHON", "REPA", "RTGS", "URGP"}
+Info101    == {"CMTO", "PHON", "OTHR", "REPA"}
+Clash101(a, b) ==
+  LET P == {<<"CHQB", x>> : x \in {"CMSW", "CMTO", "CMZB", "CORT", "NETS", "PHON", "REPA", "RTGS", "URGP"}}
+           \cup {<<"CMSW", "CMTO">>, <<"CMSW", "CMZB">>, <<"CMTO", "CMZB">>, <<"CORT", "CMSW">>, <<"CORT", "CMTO">>,
+                 <<"CORT", "CMZB">>, <<"CORT", "REPA">>, <<"EQUI", "CMSW">>, <<"EQUI", "CMTO">>, <<"EQUI", "CMZB">>,
+                 <<"NETS", "RTGS">>}
+  IN <<a, b>> \in P \/ <<b, a>> \in P
+Base101 == [ntx |-> 1, ocA |-> TRUE, ocB |-> "none", ipA |-> FALSE, ipB |-> FALSE, s52A |-> FALSE, s52B |-> FALSE,
+            f21R |-> FALSE, cur2 |-> "same", f36 |-> FALSE, f21F |-> FALSE, f33 |-> "none", e23 |-> <<>>, info |-> FALSE,
+            f56 |-> FALSE, f57 |-> FALSE]
+Codes101 == Valid101 \cup {"ZZZZ"}
+Facts101 ==
+     {[Base101 EXCEPT !.f36 = a, !.f21F = b, !.f33 = c] : a, b \in BOOLEAN, c \in {"none", "same", "diff"}}
+  \cup {[Base101 EXCEPT !.ntx = n, !.ocA = a, !.ocB = b, !.ipA = c, !.ipB = d, !.s52A = e, !.s52B = g] :
+           n \in {1, 2}, a \in BOOLEAN, b \in {"none", "first", "all"}, c, d, e, g \in BOOLEAN}
+  \cup {[Base101 EXCEPT !.ntx = 2, !.f21R = a, !.cur2 = b] : a \in BOOLEAN, b \in {"same", "diff"}}
+  \cup {[Base101 EXCEPT !.f56 = a, !.f57 = b] : a, b \in BOOLEAN}
+  \cup {[Base101 EXCEPT !.e23 = e, !.info = i] : e \in SeqsUpTo(Codes101, 2), i \in BOOLEAN}
+
+OcInAll(f)  == f.ocB = "all" \/ (f.ocB = "first" /\ f.ntx = 1)
+OcInAny(f)  == f.ocB # "none"
+Expected101(f) ==
+  LET codes == Range(f.e23) IN
+     (IF f.f36 /\ ~f.f21F THEN {"D54"} ELSE {})
+  \cup (IF (f.f33 # "none" /\ ~f.f36) \/ (f.f33 = "none" /\ f.f36) THEN {"D60"} ELSE {})       \* 32B is never zero here
+  \cup (IF (f.ocA /\ OcInAny(f)) \/ (~f.ocA /\ ~OcInAll(f)) THEN {"D61"} ELSE {})
+  \cup (IF f.ipA /\ f.ipB THEN {"D62"} ELSE {})
+  \cup (IF f.f33 = "same" THEN {"D68"} ELSE {})
+  \cup (IF f.s52A /\ f.s52B THEN {"D64"} ELSE {})
+  \cup (IF f.f56 /\ ~f.f57 THEN {"D65"} ELSE {})
+  \cup (IF f.f21R /\ f.ntx = 2 /\ f.cur2 = "diff" THEN {"D98"} ELSE {})
+  \cup (IF \E c \in codes : c \notin Valid101 THEN {"T47"} ELSE {})
+  \cup (IF f.info /\ \E c \in codes : c \notin Info101 THEN {"D66"} ELSE {})
+  \cup (IF \E i, j \in 1..Len(f.e23) : i < j /\ f.e23[i] = f.e23[j] /\ f.e23[i] # "OTHR" THEN {"E46"} ELSE {})
+  \cup (IF \E i, j \in 1..Len(f.e23) : i # j /\ Clash101(f.e23[i], f.e23[j]) THEN {"D67"} ELSE {})
+Build101(f) ==
+  <<"20">> \o (IF f.f21R THEN <<"21R">> ELSE <<>>) \o <<"28D">>
+  \o (IF f.ipA THEN <<"50C">> ELSE <<>>) \o (IF f.ocA THEN <<"50H">> ELSE <<>>) \o (IF f.s52A THEN <<"52A">> ELSE <<>>)
+  \o <<"30", "21">> \o (IF f.f21F THEN <<"21F">> ELSE <<>>)
+  \o [i \in 1..Len(f.e23) |-> "23E=" \o f.e23[i] \o (IF f.info THEN "/INFO" ELSE "")]
+  \o <<"32B=USD:100">>
+  \o (IF f.ipB THEN <<"50L">> ELSE <<>>) \o (IF f.ocB \in {"first", "all"} THEN <<"50H">> ELSE <<>>)
+  \o (IF f.s52B THEN <<"52A">> ELSE <<>>) \o (IF f.f56 THEN <<"56A">> ELSE <<>>) \o (IF f.f57 THEN <<"57A">> ELSE <<>>)
+  \o <<"59=acct">>
+  \o (IF f.f33 = "same" THEN <<"33B=USD:90">> ELSE IF f.f33 = "diff" THEN <<"33B=EUR:90">> ELSE <<>>)
+  \o <<"71A=SHA">> \o (IF f.f36 THEN <<"36">> ELSE <<>>)
+  \o (IF f.ntx = 2 THEN <<"21", "32B=" \o (IF f.cur2 = "diff" THEN "EUR" ELSE "USD") \o ":100">>
+                        \o (IF f.ocB = "all" THEN <<"50H">> ELSE <<>>) \o <<"59=acct", "71A=SHA">>
+      ELSE <<>>)
+
+(* ================================ MT107 ================================== *)
+Place == {"none", "A", "first", "all", "Aall"}      \* where a field stands: nowhere, sequence A, first / every B, both
+InA(p) == p \in {"A", "Aall"}
+InAnyB(p) == p \in {"first", "all", "Aall"}
+InEveryB(p, n) == p \in {"all", "Aall"} \/ (p = "first" /\ n = 1)
+InB(p, i) == p \in {"all", "Aall"} \/ (p = "first" /\ i = 1)
+Base107 == [ntx |-> 1, e23 |-> "A", cr |-> "A", f21E |-> "none", f26T |-> "none", f77B |-> "none", f71A |-> "none",
+            f52 |-> "none", ip |-> "none", code |-> "AUTH", info |-> FALSE, f72 |-> FALSE,
+            chB |-> FALSE, chC |-> FALSE, f33 |-> "none", f36 |-> FALSE, sumok |-> TRUE, cur2 |-> "same"]
+Facts107 ==
+     {[Base107 EXCEPT !.ntx = n, !.e23 = a, !.cr = b] : n \in {1, 2}, a, b \in Place}
+  \cup {[Base107 EXCEPT !.ntx = 2, !.f21E = a, !.cr = b] : a \in {"none", "A", "first", "all", "Aall"}, b \in {"A", "all", "first"}}
+  \cup {[Base107 EXCEPT !.ntx = 2, !.f26T = a, !.f77B = b] : a, b \in {"none", "A", "first", "Aall"}}
+  \cup {[Base107 EXCEPT !.ntx = 2, !.f71A = a, !.f52 = b, !.ip = c] : a, b, c \in {"none", "A", "first", "Aall"}}
+  \cup {[Base107 EXCEPT !.code = a, !.info = b, !.f72 = c] : a \in {"AUTH", "NAUT", "OTHR", "RTND", "ZZZZ"}, b, c \in BOOLEAN}
+  \cup {[Base107 EXCEPT !.chB = a, !.chC = b] : a, b \in BOOLEAN}
+  \cup {[Base107 EXCEPT !.f33 = a, !.f36 = b] : a \in {"none", "same", "diffcur", "diffamt"}, b \in BOOLEAN}
+  \cup {[Base107 EXCEPT !.ntx = 2, !.sumok = a, !.cur2 = b] : a \in BOOLEAN, b \in {"same", "diff"}}
+Expected107(f) ==
+     (IF (InA(f.e23) /\ InAnyB(f.e23)) \/ (~InA(f.e23) /\ ~InEveryB(f.e23, f.ntx))
+         \/ (InA(f.cr) /\ InAnyB(f.cr)) \/ (~InA(f.cr) /\ ~InEveryB(f.cr, f.ntx)) THEN {"D86"} ELSE {})
+  \cup (IF \E p \in {f.f21E, f.f26T, f.f77B, f.f71A, f.f52, f.ip} : InA(p) /\ InAnyB(p) THEN {"D73"} ELSE {})
+  \cup (IF (InA(f.f21E) /\ ~InA(f.cr)) \/ (\E i \in 1..f.ntx : InB(f.f21E, i) /\ ~InB(f.cr, i)) THEN {"D77"} ELSE {})
+  \cup (IF InA(f.e23) /\ ((f.code = "RTND") # f.f72) THEN {"C82"} ELSE {})
+  \cup (IF f.chB # f.chC THEN {"D79"} ELSE {})
+  \cup (IF f.f33 = "same" THEN {"D21"} ELSE {})
+  \cup (IF (f.f33 = "diffcur" /\ ~f.f36) \/ (f.f33 # "diffcur" /\ f.f36) THEN {"D75"} ELSE {})
+  \cup (IF ~f.sumok THEN {"D80"} ELSE {})     \* no field 19 here: the settlement amount itself must be the sum (D80);
+                                             \* C01 concerns field 19, which these vectors never carry
+  \cup (IF f.ntx = 2 /\ f.cur2 = "diff" THEN {"C02"} ELSE {})
+  \cup (IF f.code = "ZZZZ" /\ f.e23 # "none" THEN {"T47"} ELSE {})
+  \cup (IF f.info /\ f.code # "OTHR" /\ f.e23 # "none" THEN {"D81"} ELSE {})
+Opt107(p, tok, inA, i) == IF (inA /\ InA(p)) \/ (~inA /\ InB(p, i)) THEN <<tok>> ELSE <<>>
+Tx107(f, i) ==
+  <<"21">> \o Opt107(f.e23, "23E=" \o f.code \o (IF f.info THEN "/INFO" ELSE ""), FALSE, i) \o Opt107(f.f21E, "21E", FALSE, i)
+  \o <<"32B=" \o (IF i = 2 /\ f.cur2 = "diff" THEN "EUR" ELSE "USD") \o ":100">>
+  \o Opt107(f.ip, "50C", FALSE, i) \o Opt107(f.cr, "50K", FALSE, i) \o Opt107(f.f52, "52A", FALSE, i)
+  \o <<"59=acct">> \o Opt107(f.f26T, "26T", FALSE, i) \o Opt107(f.f77B, "77B", FALSE, i)
+  \o (IF i = 1 /\ f.f33 = "same" THEN <<"33B=USD:100">> ELSE IF i = 1 /\ f.f33 = "diffcur" THEN <<"33B=EUR:90">>
+      ELSE IF i = 1 /\ f.f33 = "diffamt" THEN <<"33B=USD:90">> ELSE <<>>)
+  \o Opt107(f.f71A, "71A=SHA", FALSE, i)
+  \o (IF f.chB THEN <<"71F=USD:1", "71G=USD:1">> ELSE <<>>)
+  \o (IF i = 1 /\ f.f36 THEN <<"36">> ELSE <<>>)
+Build107(f) ==
+  <<"20">> \o Opt107(f.e23, "23E=" \o f.code \o (IF f.info THEN "/INFO" ELSE ""), TRUE, 0) \o Opt107(f.f21E, "21E", TRUE, 0)
+  \o <<"30">> \o Opt107(f.ip, "50C", TRUE, 0) \o Opt107(f.cr, "50K", TRUE, 0) \o Opt107(f.f52, "52A", TRUE, 0)
+  \o Opt107(f.f26T, "26T", TRUE, 0) \o Opt107(f.f77B, "77B", TRUE, 0) \o Opt107(f.f71A, "71A=SHA", TRUE, 0)
+  \o (IF f.f72 THEN <<"72">> ELSE <<>>)
+  \o Tx107(f, 1) \o (IF f.ntx = 2 THEN Tx107(f, 2) ELSE <<>>)
+  \o <<"32B=USD:" \o (IF f.sumok THEN ToString(100 * f.ntx) ELSE ToString(100 * f.ntx + 7))>>
+  \o (IF f.chC THEN <<"71F=USD:" \o ToString(f.ntx), "71G=USD:" \o ToString(f.ntx)>> ELSE <<>>)
+
 (* ================================ MT110 ================================== *)
 Facts110 == {[n |-> n, cur2 |-> c] : n \in {1, 2, 10, 11}, c \in {"same", "diff"}}
 Expected110(f) == (IF f.n > 10 THEN {"T10"} ELSE {}) \cup (IF f.n >= 2 /\ f.cur2 = "diff" THEN {"C02"} ELSE {})
@@ -201,17 +307,17 @@ Minimal(t) == CASE t \in {"111"} -> <<"20", "21", "30", "32A=USD:100">>
                 [] t = "900" -> <<"20", "21", "25", "32A=USD:100">>
 
 (* ================================ dispatch =============================== *)
-Ruled == {"103", "110", "202", "204", "205", "210", "910", "920", "935", "940", "941", "942", "950", "192"}
-Facts(t) == CASE t = "103" -> Facts103 [] t = "110" -> Facts110 [] t = "202" -> Facts202 [] t = "204" -> Facts204
+Ruled == {"101", "107", "103", "110", "202", "204", "205", "210", "910", "920", "935", "940", "941", "942", "950", "192"}
+Facts(t) == CASE t = "101" -> Facts101 [] t = "107" -> Facts107 [] t = "103" -> Facts103 [] t = "110" -> Facts110 [] t = "202" -> Facts202 [] t = "204" -> Facts204
               [] t = "205" -> Facts205 [] t = "210" -> Facts210 [] t = "910" -> Facts910 [] t = "920" -> Facts920
               [] t = "935" -> Facts935 [] t = "940" -> Facts940 [] t = "941" -> Facts941 [] t = "942" -> Facts942
               [] t = "950" -> Facts950 [] t = "192" -> Facts192 [] OTHER -> {[none |-> TRUE]}
-Expected(t, f) == CASE t = "103" -> Expected103(f) [] t = "110" -> Expected110(f) [] t = "202" -> Expected202(f)
+Expected(t, f) == CASE t = "101" -> Expected101(f) [] t = "107" -> Expected107(f) [] t = "103" -> Expected103(f) [] t = "110" -> Expected110(f) [] t = "202" -> Expected202(f)
               [] t = "204" -> Expected204(f) [] t = "205" -> Expected205(f) [] t = "210" -> Expected210(f)
               [] t = "910" -> Expected910(f) [] t = "920" -> Expected920(f) [] t = "935" -> Expected935(f)
               [] t = "940" -> Expected940(f) [] t = "941" -> Expected941(f) [] t = "942" -> Expected942(f)
               [] t = "950" -> Expected950(f) [] t = "192" -> Expected192(f) [] OTHER -> {}
-Build(t, f) == CASE t = "103" -> Build103(f) [] t = "110" -> Build110(f) [] t = "202" -> Build202(f)
+Build(t, f) == CASE t = "101" -> Build101(f) [] t = "107" -> Build107(f) [] t = "103" -> Build103(f) [] t = "110" -> Build110(f) [] t = "202" -> Build202(f)
               [] t = "204" -> Build204(f) [] t = "205" -> Build205(f) [] t = "210" -> Build210(f)
               [] t = "910" -> Build910(f) [] t = "920" -> Build920(f) [] t = "935" -> Build935(f)
               [] t = "940" -> Build940(f) [] t = "941" -> Build941(f) [] t = "942" -> Build942(f)
@@ -226,8 +332,10 @@ Spec == Init /\ [][Next]_vars
 (* design-level: the baseline of every ruled type is valid; every code of a type is producible *)
 RulesTotal == Expected(mt, facts) \subseteq {"D75", "E01", "E02", "E06", "C81", "E16", "E17", "E13", "D50", "E15", "D51", "C02",
                                              "E18", "E44", "E45", "T36", "T48", "D97", "E46", "D98", "D67", "T10", "C68",
-                                             "C01", "C06", "T88", "C22", "C23", "C40", "T14", "C27", "C25"}
-BaselineValid == Expected103(Base103) = {}
+                                             "C01", "C06", "T88", "C22", "C23", "C40", "T14", "C27", "C25",
+                                             "D54", "D60", "D61", "D62", "D68", "D64", "D65", "T47", "D66", "D86", "D73", "D77",
+                                             "C82", "D79", "D21", "D81", "D80"}
+BaselineValid == Expected103(Base103) = {} /\ Expected101(Base101) = {} /\ Expected107(Base107) = {}
 
 Emit == EmitCases => PrintT(ToJson([mt |-> mt, toks |-> Build(mt, facts), exp |-> Expected(mt, facts), facts |-> facts]))
 =============================================================================
